@@ -95,6 +95,46 @@ def register(reg):
     return [(st, VFloat(Flt.FIN(t)))]
   reg.externals['time.monotonic'] = lambda ex: __import__('pyvc.values', fromlist=['x']).VBuiltin('time.monotonic', mono)
 
+  # ---- explicit Lock.acquire / release (the lockset is per path; `with lock:` is handled by the engine)
+  def lk_acquire(ex, st, args, kwargs):
+    ex.ctx.use_trusted('threading.Lock.acquire')
+    lock = args[0]
+    name = ex.lock_name(st, lock)
+    blocking = args[1] if len(args) > 1 else kwargs.get('blocking', VBool(True))
+    out = []
+    for s, b in ex.truth_branch(st, blocking):
+      if b:
+        if name in s.locks and lock.cls != 'rlock':
+          from pyvc.state import Obligation
+          ex.ctx.obligations.append(Obligation('%s/lock.self_deadlock@%s' % (ex.ctx.unit, name), 'lock', s.pc,
+                                               z3.BoolVal(False), '', {'msg': 'non-reentrant lock acquired twice'}))
+        s.locks = s.locks + (name,)
+        ex.on_acquire(s, lock, name)
+        out.append((s, VBool(True)))
+      else:
+        got = s.fork()
+        got.locks = got.locks + (name,)
+        ex.on_acquire(got, lock, name)
+        out.append((got, VBool(True)))
+        if name not in s.locks or lock.cls != 'rlock':
+          out.append((s, VBool(False)))       # some other thread holds it
+    return out
+
+  def lk_release(ex, st, args, kwargs):
+    ex.ctx.use_trusted('threading.Lock.release')
+    lock = args[0]
+    name = ex.lock_name(st, lock)
+    if name not in st.locks:
+      return [(st, ex.raise_builtin(st, 'RuntimeError', 'release unlocked lock'))]
+    held = list(st.locks)
+    held.reverse(); held.remove(name); held.reverse()
+    st.locks = tuple(held)
+    ex.on_release(st, lock, name)
+    return [(st, NONE)]
+  for cls in ('lock', 'rlock'):
+    tm[(cls, 'acquire')] = lk_acquire
+    tm[(cls, 'release')] = lk_release
+
   # ---- lock / event constructors
   from pyvc.values import VBuiltin
 
